@@ -24,6 +24,7 @@ const (
 	jRunning
 	jPost
 	jPosting
+	jMid // parked between two rounds of its body
 )
 
 type jobRec struct {
@@ -172,6 +173,10 @@ func (s *Sim) handle(ev simrt.Event) {
 			s.arrivedKind[k]++
 			s.arrived++
 			s.jobs = append(s.jobs, j)
+		} else if ev.A == 2 {
+			if j := s.jobByFD(int(ev.B)); j != nil {
+				j.state = jMid
+			}
 		} else {
 			if j := s.jobByFD(int(ev.B)); j != nil {
 				j.state = jPost
@@ -308,7 +313,7 @@ func (s *Sim) enabled() []stepRef {
 	}
 	for _, j := range s.sortedJobs() {
 		switch j.state {
-		case jBegin:
+		case jBegin, jMid:
 			out = append(out, stepRef{label: "body:" + j.name(), kind: "body", job: j})
 		case jPost:
 			out = append(out, stepRef{label: "post:" + j.name(), kind: "post", job: j})
@@ -343,7 +348,7 @@ func (s *Sim) execQuiet(st stepRef) {
 		st.job.state = jRunning
 		simrt.Release(st.job.wfd, false)
 		j := st.job
-		s.waitFor(func() bool { return j.state == jPost }, "body of "+j.name()+" after restart")
+		s.waitFor(func() bool { return j.state == jPost || j.state == jMid }, "body of "+j.name()+" after restart")
 	case "post":
 		j := st.job
 		j.state = jPosting
@@ -464,17 +469,24 @@ func (s *Sim) exec(st stepRef) {
 		}
 		s.or.afterAPI(op, r)
 	case "body":
+		first := st.job.state == jBegin
 		st.job.state = jRunning
-		s.or.beforeBody(st.job)
+		if first {
+			s.or.beforeBody(st.job)
+		} else {
+			s.res.Count("probe_job_continued_after_mid_body_gate", 1)
+		}
 		if wf := s.writeFault(simrt.KindNames[st.job.kind], st.job.seq, 0); wf != nil {
 			simrt.SetFsizeLimit(wf.Limit)
 			s.res.Count("fault_disk_full_during_"+simrt.KindNames[st.job.kind], 1)
 		}
 		simrt.Release(st.job.wfd, false)
 		j := st.job
-		s.waitFor(func() bool { return j.state == jPost }, "body of "+j.name())
+		s.waitFor(func() bool { return j.state == jPost || j.state == jMid }, "body of "+j.name())
 		simrt.SetFsizeLimit(0)
-		s.or.afterBody(st.job)
+		if j.state == jPost {
+			s.or.afterBody(st.job)
+		}
 	case "post":
 		j := st.job
 		j.state = jPosting
